@@ -44,13 +44,46 @@ def overload_case(rng):
         return "v%s" % t          # variable of that declared AND dynamic class
 
     lines = ["class C0 { public constructor() -> C0 = default; }", "class C1 extends C0 { public constructor() -> C1 = default; }",
-             "class C2 extends C1 { public constructor() -> C2 = default; }", "class K {", "    public constructor() -> K = default;"]
-    for i, c in enumerate(cands):
-        lines.append("    public function g(%s) -> string { return \"g%d\"; }" % (", ".join("%s p%d" % (tyname(t), j) for j, t in enumerate(c)), i))
-    lines += ["}", "function main() -> void {", "    K k = new K();", "    C0 vC0 = new C0(); C1 vC1 = new C1(); C2 vC2 = new C2();",
+             "class C2 extends C1 { public constructor() -> C2 = default; }"]
+    sig = lambda i, c: "    public function g(%s) -> string { return \"g%d\"; }" % (", ".join("%s p%d" % (tyname(t), j) for j, t in enumerate(c)), i)
+    if rng.random() < 0.45:
+        # the overloads are spread over the receiver's class chain K0 <- K1 <- K2: the set visible from the receiver's class is what
+        # the call chooses from, inherited or not
+        owner = [rng.randrange(3) for _ in cands]
+        recv = rng.choice([1, 2, 2])
+        if rng.random() < 0.6 and "n" not in args:
+            # two applicable overloads of different cost in different classes: the exact one and a widened one (int->long, Ck->Cj)
+            wide = tuple(("l" if t == "i" else ("C%d" % rng.randrange(0, int(t[1]))) if t.startswith("C") and t != "C0" else t) for t in args)
+            exact = tuple(args)
+            if wide != exact:
+                for c in (exact, wide):
+                    if c not in cands:
+                        cands.append(c)
+                        owner.append(0)
+                lo, hi = sorted(rng.sample(range(0, recv + 1), 2)) if recv >= 1 else (0, 0)
+                a, b = (lo, hi) if rng.random() < 0.6 else (hi, lo)
+                owner[cands.index(exact)], owner[cands.index(wide)] = a, b
+        visible = [i for i, o in enumerate(owner) if o <= recv]
+        if not visible:
+            owner[0] = 0
+            visible = [0]
+        for lvl in range(3):
+            lines.append("class K%d%s {" % (lvl, (" extends K%d" % (lvl - 1)) if lvl else ""))
+            lines.append("    public constructor() -> K%d = default;" % lvl)
+            lines += [sig(visible.index(i) if i in visible else 90 + i, c) for i, c in enumerate(cands) if owner[i] == lvl]
+            lines.append("}")
+        lines += ["function main() -> void {", "    K%d k = new K%d();" % (recv, recv)]
+        vis_cands = [cands[i] for i in visible]
+        desc = "chain recv=K%d owners=%s " % (recv, owner)
+    else:
+        lines += ["class K {", "    public constructor() -> K = default;"] + [sig(i, c) for i, c in enumerate(cands)] + ["}"]
+        lines += ["function main() -> void {", "    K k = new K();"]
+        vis_cands = cands
+        desc = ""
+    lines += ["    C0 vC0 = new C0(); C1 vC1 = new C1(); C2 vC2 = new C2();",
               "    echo(k.g(%s));" % ", ".join(argexpr(t, j) for j, t in enumerate(args)), "}"]
-    line = "ovl %s %s" % (";".join(",".join(c) for c in cands), ",".join(args))
-    return "\n".join(lines), line, "%s <- (%s)" % (" | ".join(",".join(c) for c in cands), ",".join(args))
+    line = "ovl %s %s" % (";".join(",".join(c) for c in vis_cands), ",".join(args))
+    return "\n".join(lines), line, desc + "%s <- (%s)" % (" | ".join(",".join(c) for c in vis_cands), ",".join(args))
 
 
 def generic_case(rng):
